@@ -23,6 +23,8 @@ type RelCase struct {
 	S     []int    `json:"s"`
 	A     []Res    `json:"a"`
 	B     []Res    `json:"b"`
+	Str   []Res    `json:"str"` // as shipped through the STRING entry point (FindStringMatchStartingAt at the rune's byte offset)
+	MS    int      `json:"ms"`  // MatchString: 1 true, 0 false, -1 error
 	Skips [][4]int `json:"skips"` // [scan start, from, to, found]
 }
 
@@ -88,7 +90,14 @@ func findMode(re *regexp2.Regexp) string {
 
 func relCase(reA, reB *regexp2.Regexp, s []int) RelCase {
 	in := intsToRunes(s)
-	c := RelCase{S: s, A: []Res{}, B: []Res{}, Skips: [][4]int{}}
+	c := RelCase{S: s, A: []Res{}, B: []Res{}, Str: []Res{}, Skips: [][4]int{}}
+	str := string(in)
+	offs := byteOffsetsOf(str)
+	if ok, err := reA.MatchString(str); err != nil {
+		c.MS = -1
+	} else if ok {
+		c.MS = 1
+	}
 	if c.S == nil {
 		c.S = []int{}
 	}
@@ -107,6 +116,18 @@ func relCase(reA, reB *regexp2.Regexp, s []int) RelCase {
 		c.A = append(c.A, findRunesAt(reA, in, st))
 		regexp2.SetVerifOnFind(nil)
 		c.B = append(c.B, findRunesAt(reB, in, st))
+		var sr Res
+		if err := safely(func() error {
+			m, e := reA.FindStringMatchStartingAt(str, offs[st])
+			if e != nil {
+				return e
+			}
+			sr = matchRes(reA, m)
+			return nil
+		}); err != nil {
+			sr = Res{Caps: [][][2]int{}, Err: err.Error()}
+		}
+		c.Str = append(c.Str, sr)
 	}
 	return c
 }
@@ -114,6 +135,15 @@ func relCase(reA, reB *regexp2.Regexp, s []int) RelCase {
 // accelPattern builds patterns of the shapes the candidate searches recognise
 func (g *Gen) accelPattern() *Tree {
 	lit := func(n int) *Tree {
+		if g.chance(0.35) {
+			// self-overlapping literals: an occurrence can start inside another one
+			w := []string{"aa", "aaa", "aba", "abab", "abaab", "aab"}[g.pick(6)]
+			var ks []*Tree
+			for _, c := range w {
+				ks = append(ks, Lit(int(c)))
+			}
+			return T("cat", ks...)
+		}
 		var ks []*Tree
 		for i := 0; i < n; i++ {
 			ks = append(ks, Lit(g.c.Letters[g.pick(min(4, len(g.c.Letters)))]))
